@@ -48,6 +48,8 @@ fn test_menu() -> Vec<TestDesc> {
         t(Some("w"), "A Z9_out\n0 1\n"),
         t(Some("x"), "A B_out\n0 1\nC 3\n"),
         t(Some("bad"), "A Q\nlet ;\n"),
+        // the same label again, on a test that loads: the name still selects the first one (an error)
+        t(Some("bad"), "A Q\n1 1\n"),
         t(Some("Testdata"), "A\n1\n"),
         t(Some("a&b"), "A Q\n0 1 # say \"hi\" & <bye>\n"),
         t(Some("crlf"), "\r\nA Q\r\n0 1\r\n"),
@@ -128,6 +130,28 @@ fn load_class(r: &Result<dtr::TestCase, dtr::errors::LoadTestError>) -> String {
 
 /// Check one generated document; returns (class, description) of a violation.
 fn check_doc(pins: &[Pin], tests: &[TestDesc], st: &mut Stats) -> Option<(String, String)> {
+    // the elements of a document come in any order: pins first (as a rule), and for every third
+    // document also tests first and tests right after the first pin
+    let r = check_doc_in_order(pins, tests, st);
+    if r.is_some() || hash64(&(pins, tests)) % 3 != 0 {
+        return r;
+    }
+    for order in [1, 2] {
+        digxml::set_element_order(order);
+        let r = check_doc_in_order(pins, tests, st);
+        st.witness("tests_in_front_of_pins_in_the_document");
+        if r.is_none() {
+            digxml::set_element_order(0);
+        }
+        // (on a violation the order stays set: the caller renders the document for the replay file and resets it)
+        if let Some((class, desc)) = r {
+            return Some((class, format!("{desc}\n(document order: {})", if order == 1 { "the Testcase elements stand in front of the pins" } else { "the Testcase elements stand behind the first pin, the other pins behind them" })));
+        }
+    }
+    None
+}
+
+fn check_doc_in_order(pins: &[Pin], tests: &[TestDesc], st: &mut Stats) -> Option<(String, String)> {
     let doc = digxml::render(pins, tests);
     let want = reference(pins, tests);
     let d2 = doc.clone();
@@ -321,6 +345,7 @@ pub fn run(tier: Tier, seed: u64) -> i32 {
             }
             if let Some((class, desc)) = check_doc(&pins, &tests, st) {
                 let doc = digxml::render(&pins, &tests);
+                digxml::set_element_order(0);
                 let summary = format!("pins: {:?}\ntests: {:?}\n{desc}", pins.iter().map(|p| p.show()).collect::<Vec<_>>(), tests.iter().map(|t| format!("{:?}: {:?}", t.label, t.source)).collect::<Vec<_>>());
                 st.violation(&class, (pins.len() as u64) << 40 | (tests.len() as u64) << 36 | pi << 12 | ti as u64, summary, || json!({"kind": "dig", "document": doc, "expected": [format!("{:?}", reference(&pins, &tests))], "observed": [describe_doc(&doc)]}));
             }
@@ -345,6 +370,7 @@ pub fn run(tier: Tier, seed: u64) -> i32 {
         total.witness("document_with_300_pins_and_40_tests");
         if let Some((class, desc)) = check_doc(&pins, &tests, &mut total) {
             let doc = digxml::render(&pins, &tests);
+            digxml::set_element_order(0);
             total.violation(&format!("large scale: {class}"), 1 << 61, format!("300 pins, 40 tests\n{desc}"), || json!({"kind": "dig", "document": doc, "expected": ["as described"], "observed": [describe_doc(&doc)]}));
         }
     }
@@ -433,7 +459,7 @@ pub fn run(tier: Tier, seed: u64) -> i32 {
             "the name given to a Testcase without Label entry is not specified".into(),
             "dig::File::open (file system) is not explored; parse is".into(),
         ],
-        required_witnesses: vec!["document_with_300_pins_and_40_tests", "loadable_document", "unloadable_document_rejected", "bidirectional_signal_recovered", "load_test_ok", "load_test_err_same_class", "duplicate_test_label", "corrupted_document_still_loads", "corrupted_document_rejected", "lookup_by_a_name_that_is_nearly_a_label", "test_loaded_twice_from_one_file_object"],
+        required_witnesses: vec!["document_with_300_pins_and_40_tests", "loadable_document", "unloadable_document_rejected", "bidirectional_signal_recovered", "load_test_ok", "load_test_err_same_class", "duplicate_test_label", "corrupted_document_still_loads", "corrupted_document_rejected", "lookup_by_a_name_that_is_nearly_a_label", "test_loaded_twice_from_one_file_object", "tests_in_front_of_pins_in_the_document"],
         exhaustive_note: "all menu sequences within the bounds; all listed corruptions".into(),
         e1: false,
     };
